@@ -1335,6 +1335,12 @@ fn gen_c03(rng: &mut Rng, r: u64) -> Value {
         v["chunks"] = json!([a, len - a]);
         v["abandon_chunks"] = json!([0]);
     }
+    // a declared integrity that the data does not satisfy (the true address of other data, stored or not): the commit is
+    // rejected, and nothing may appear under that address either
+    if v["entry"] == "opts" && rng.chance(1, 6) {
+        v["opts"]["sri"] = json!({"val":1,"algo":"sha256"});
+        v["opts"].as_object_mut().map(|o| o.remove("algo"));
+    }
     // declared sizes that do not match the data, on both sides of the mmap threshold: the commit is rejected,
     // but whatever reaches the content area must still be exactly the data of its address
     if v["entry"] == "opts" && rng.chance(1, 2) {
